@@ -234,6 +234,18 @@ def gen_pair(rng):
     else:
         src = {'prim': 'source', 'leaf': {'leaf': 'trapezoid', 'amp': q(O.dy(rng, 1, 8, 2)), 'x0': q(O.dy(rng, 3000, 7000, 1)),
                                           'width': q(O.dy(rng, 500, 2500, 1)), 'slope': q(F(1, rng.choice([64, 128, 256])))}}
+    if rng.random() < 0.3:
+        # brightness over many decades (exact powers of two): faint and very bright sources
+        k = F(2) ** rng.choice([-120, -80, -60, -40, -20, 30, 60])
+        lf = src['leaf']
+        if lf['leaf'] == 'empirical':
+            lf['vals'] = qs([unq(v) * k for v in lf['vals']])
+        else:
+            lf['amp'] = q(unq(lf['amp']) * k)
+            if 'slope' in lf:       # a trapezoid keeps its shape: the ramps are amplitude / slope wide
+                lf['slope'] = q(unq(lf['slope']) * k)
+        if 'ss' in lf:
+            del lf['ss']
     if rng.random() < 0.5:
         band = {'prim': 'bandpass', 'leaf': O.gen_table_leaf(rng, lo=2000, hi=8000, nmax=8, nonneg=True, keep_neg=True)}
     else:
@@ -313,9 +325,12 @@ def finish_case(c, rng):
         aa = vals.tolist()
     else:
         c['_binset_model'] = None
-        bw = O.build_prim(c['band']).waveset
-        sw = O.build_prim(c['src']).waveset
-        w = bw if bw is not None else sw
+        try:
+            bw = O.build_prim(c['band']).waveset
+            sw = O.build_prim(c['src']).waveset
+            w = bw if bw is not None else sw
+        except Exception:   # noqa  (a sampling set with non-positive wavelengths: the constructor will refuse too)
+            w = None
         aa = None if w is None else w.value.tolist()
     if aa is not None and len(aa) >= 2:
         for _ in range(2):
